@@ -424,6 +424,12 @@ func (l *listener) Close() error {
 	if l.listener != nil {
 		_ = l.listener.Close()
 	}
+	if l.htsvr != nil && !l.noserve {
+		// Connections that have not been upgraded yet (a client that
+		// connected and sends nothing) belong to the HTTP server, and
+		// closing the listener does not close them.
+		_ = l.htsvr.Close()
+	}
 	l.closed = true
 	l.running = false
 	l.cv.Broadcast()
